@@ -86,6 +86,13 @@ impl InputGenerator {
             // ignore \n if \r already received (and converted to Enter)
             codes::LINE_FEED if last_byte != codes::CARRIAGE_RETURN => ControlInput::Enter,
 
+            // second byte of \r\n or \n\r pair is consumed, so it must not
+            // suppress terminator that follows it
+            codes::CARRIAGE_RETURN | codes::LINE_FEED => {
+                self.last_byte = 0;
+                return None;
+            }
+
             codes::TABULATION => ControlInput::Tab,
 
             // process only non control ascii chars (and utf8)
